@@ -272,3 +272,104 @@ func FuzzC07_Invariant(f *testing.F) {
 		}
 	})
 }
+
+// ------------------------------------------------------------------ I/O buffer edges
+//
+// The reader works through a bufio.Reader (4096 bytes by default).  For a few
+// generated documents a padding field is put in front so that EVERY line
+// boundary of the document in turn falls one byte before, exactly on, and one
+// byte after the 4096- and 8192-byte marks (the padding line itself is then
+// longer than one buffer).
+
+func padDoc(c DocCase, pad int) DocCase {
+	out := DocCase{Feats: append([]string{"buffer-edge"}, c.Feats...)}
+	eol := "\n"
+	if strings.Contains(c.Text, "\r\n") {
+		eol = "\r\n"
+	}
+	val := strings.Repeat("x", pad)
+	// the padding field goes in front of the first field line of the document
+	lines := strings.SplitAfter(c.Text, "\n")
+	at := 0
+	for at < len(lines) && (strings.TrimRight(lines[at], "\r\n") == "" || strings.HasPrefix(lines[at], "#")) {
+		at++
+	}
+	padLine := "Pad-Field: " + val + eol
+	out.Text = strings.Join(lines[:at], "") + padLine + strings.Join(lines[at:], "")
+	for i, w := range c.Want {
+		nw := ParaWant{Order: append([]string{}, w.Order...), Values: map[string]string{}, Alt: w.Alt}
+		for k, v := range w.Values {
+			nw.Values[k] = v
+		}
+		if i == 0 {
+			nw.Order = append([]string{"Pad-Field"}, nw.Order...)
+			nw.Values["Pad-Field"] = val
+		}
+		out.Want = append(out.Want, nw)
+	}
+	return out
+}
+
+var specC07Edge = Register(&Spec[DocCase]{
+	Prop: "C07", Name: "bufferedge",
+	Rule: "bounded-exhaustive over buffer alignment: for a few generated documents (>= 1 paragraph, no field called Pad-Field) a padding field of n 'x' is inserted as first field, with n chosen so that each line boundary of the document in turn lands at 4096-1, 4096, 4096+1, 8192-1, 8192, 8192+1 bytes from the start (the padding line is itself longer than the 4096-byte bufio buffer). Oracle as C07/model. Non-trivial: every case; distinct by text.",
+	Check: func(c DocCase, r *Recorder) error {
+		r.Case(c.Text, true, c.Feats...)
+		if len(c.Text)%53 == 0 {
+			r.Sample(map[string]interface{}{"bytes": len(c.Text), "paragraphs": len(c.Want)})
+		}
+		ways, err := readAllWays(c.Text)
+		if err != nil {
+			return errf("well-formed document of %d bytes (padding field in front): %v", len(c.Text), err)
+		}
+		for _, how := range []string{"All()", "Next() loop", "Unmarshal(&[]T)", "Decoder.Decode(&T) loop"} {
+			if err := parasMatch(ways[how], c.Want, how); err != nil {
+				return errf("document of %d bytes with a %d-byte padding line: %v", len(c.Text), len(c.Want[0].Values["Pad-Field"]), err)
+			}
+		}
+		return nil
+	},
+})
+
+func TestC07_BufferEdgeExh(t *testing.T) {
+	n := pickN(3, 20)
+	var bases []DocCase
+	sink := &Spec[DocCase]{Check: func(c DocCase, r *Recorder) error { bases = append(bases, c); return nil }}
+	rapidCollect(t, sink, func(t *rapid.T) DocCase {
+		for {
+			c := genDocCase(t, 3)
+			ok := len(c.Want) >= 1
+			for _, w := range c.Want {
+				if _, clash := w.Values["Pad-Field"]; clash {
+					ok = false
+				}
+			}
+			if ok {
+				return c
+			}
+		}
+	}, n)
+	specC07Edge.Enumerate(t, true, func(_ *Recorder, yield func(DocCase) bool) {
+		for _, b := range bases {
+			zero := padDoc(b, 0)
+			// offsets of every line end in the padded document (pad = 0)
+			for pos := 0; pos < len(zero.Text); pos++ {
+				if zero.Text[pos] != '\n' {
+					continue
+				}
+				end := pos + 1
+				for _, mark := range []int{4096, 8192} {
+					for d := -1; d <= 1; d++ {
+						pad := mark + d - end
+						if pad < 1 {
+							continue
+						}
+						if !yield(padDoc(b, pad)) {
+							return
+						}
+					}
+				}
+			}
+		}
+	})
+}
